@@ -1227,6 +1227,9 @@ func (c *c10ctx) ruleR7() {
 			if !ok || blocking[k] == nil {
 				return
 			}
+			if _, local := addrRoot(st.Addr).(*ssa.Alloc); local {
+				return // a field of a value built here (a result message), not of a long-lived object
+			}
 			if cst, isC := st.Val.(*ssa.Const); isC && cst.IsNil() {
 				return
 			}
